@@ -144,7 +144,98 @@ pub fn c10(tier: &str, seed: u64) -> Vec<Case> {
         if class_of(&out) != "ok" { c = c.fail("isdn-without-subaddress", "an ISDN record without the optional sub-address (RFC 1183 3.2) is rejected".into()); }
         v.push(c);
     }
+    svcb_builder(thorough, seed, &mut v);
     v
+}
+
+/// SVCB / HTTPS built through `set_param` and the typed helpers (`set_mandatory`, `set_alpn`,
+/// `set_no_default_alpn`, `set_port`, `set_ipv4hint`, `set_ipv6hint`), in any order and with repeats:
+/// the model replays the calls; the oracle keeps its own ordered map with the SvcParamValues of
+/// RFC 9460 section 7 and checks the written RDATA against the reference encoder and the parse back.
+fn svcb_builder(thorough: bool, seed: u64, v: &mut Vec<Case>) {
+    use std::collections::BTreeMap;
+    let mut g = Gen::new(seed ^ 0x5CB);
+    let n = if thorough { 6000 } else { 400 };
+    for i in 0..n {
+        let https = g.rng.chance(1, 3);
+        let code = if https { 65 } else { 64 };
+        let prio = g.u16();
+        let target = g.name();
+        let mut s = SVCB::new(prio, target.clone());
+        let mut expect: BTreeMap<u16, Vec<u8>> = BTreeMap::new();
+        let mut ops = vec![];
+        let mut oks = String::new();
+        let nops = if i % 50 == 0 { 0 } else { g.rng.range(1, 7) };
+        for _ in 0..nops {
+            let (key, value, text, ok): (u16, Vec<u8>, String, bool) = match g.rng.below(8) {
+                0 | 1 => {
+                    let k = if g.rng.chance(1, 2) { g.rng.below(8) as u16 } else { g.u16() };
+                    let val = match g.rng.below(12) { 0 => vec![0u8; 65535], 1 => vec![7u8; 65536], 2 => vec![], _ => { let n = g.rng.below(20) as usize; g.rng.bytes(n) } };
+                    let r = s.set_param(k, val.clone());
+                    (k, val.clone(), format!("p {} {}", k, text::hex(&val)), r.is_ok())
+                }
+                2 => {
+                    let ks: Vec<u16> = (0..g.rng.below(5)).map(|_| if g.rng.chance(1, 2) { g.rng.below(8) as u16 } else { g.u16() }).collect();
+                    let r = s.set_mandatory(ks.iter().copied());
+                    let val: Vec<u8> = ks.iter().flat_map(|k| vec![(k >> 8) as u8, (k & 255) as u8]).collect();
+                    (0, val, format!("m {} {}", ks.len(), ks.iter().map(|k| k.to_string()).collect::<Vec<_>>().join(" ")), r.is_ok())
+                }
+                3 => {
+                    let many = g.rng.chance(1, 15);
+                    let ids: Vec<Vec<u8>> = if many { (0..258).map(|_| vec![b'h'; 255]).collect() } else { (0..g.rng.below(4)).map(|_| { if g.rng.chance(1, 8) { vec![] } else { let n = g.rng.range(1, 9) as usize; g.rng.bytes(n) } }).collect() };
+                    let r = s.set_alpn(ids.iter().map(|b| crate::gen::mk_cs(b)));
+                    let mut val = vec![];
+                    for id in &ids { val.push(id.len() as u8); val.extend_from_slice(id); }
+                    (1, val, format!("a {} {}", ids.len(), ids.iter().map(|b| text::hex(b)).collect::<Vec<_>>().join(" ")), r.is_ok())
+                }
+                4 => { s.set_no_default_alpn(); (2, vec![], "d".to_string(), true) }
+                5 => { let p = g.u16(); s.set_port(p); (3, vec![(p >> 8) as u8, (p & 255) as u8], format!("o {}", p), true) }
+                6 => {
+                    let ips: Vec<u32> = (0..g.rng.below(4)).map(|_| g.rng.int(32) as u32).collect();
+                    let r = s.set_ipv4hint(ips.iter().copied());
+                    let mut val = vec![];
+                    for ip in &ips { for sh in [24, 16, 8, 0] { val.push((ip >> sh) as u8); } }
+                    (4, val, format!("4 {} {}", ips.len(), ips.iter().map(|k| k.to_string()).collect::<Vec<_>>().join(" ")), r.is_ok())
+                }
+                _ => {
+                    let ips: Vec<u128> = (0..g.rng.below(3)).map(|_| g.rng.int(128)).collect();
+                    let r = s.set_ipv6hint(ips.iter().copied());
+                    let mut val = vec![];
+                    for ip in &ips { for j in (0..16).rev() { val.push((ip >> (8 * j)) as u8); } }
+                    (6, val, format!("6 {} {}", ips.len(), ips.iter().map(|k| k.to_string()).collect::<Vec<_>>().join(" ")), r.is_ok())
+                }
+            };
+            let should = value.len() <= 65535;
+            if should { expect.insert(key, value); }
+            oks.push(if ok { '1' } else { '0' });
+            ops.push(text);
+            if ok != should {
+                v.push(Case::oracle_only().tag("svcb-builder").fail("svcb-set-result", format!("setting key {} with a value of the permitted/forbidden size returned {}", key, if ok { "Ok" } else { "Err" })));
+            }
+        }
+        let rd = if https { RData::HTTPS(HTTPS(s.clone())) } else { RData::SVCB(s.clone()) };
+        let mut lib = vec![];
+        let wrote = verif::rdata_write(&rd, &mut lib).is_ok();
+        let impl_out = format!("ok {} {} {}", oks, text::rdata(&rd), if wrote { format!("ok {}", text::hex(&lib)) } else { "err".to_string() });
+        let op = format!("svcb {} {} {} {} {}", code, prio, text::name(&target), ops.len(), ops.join(" "));
+        let mut c = Case::new(op.trim_end().to_string(), impl_out).tag("svcb-builder").tag(if https { "type:HTTPS" } else { "type:SVCB" });
+        // oracle: RFC 9460 2.2 encoding of the expected map, and every stored value readable by key
+        let kv = if expect.is_empty() { "0".to_string() } else { format!("{} {}", expect.len(), expect.iter().map(|(k, b)| format!("{} {}", k, text::hex(b))).collect::<Vec<_>>().join(" ")) };
+        let rd_text = format!("F {} 3 i {} {} t {}", code, prio, text::name(&target), kv);
+        let total: usize = expect.values().map(|b| b.len() + 4).sum();
+        if total < 60000 {
+            let rr_text = format!("n 1 x74 1 5 0 {}", rd_text);
+            let (reference, _) = refenc::encode_packet(&packet_text(&rr_text), Compress::Never, false, None);
+            let w = walker::walk(&reference).unwrap();
+            let e = &w.sections[0][0];
+            if !wrote || reference[e.rd_start..e.next()] != lib[..] { c = c.fail("svcb-built-layout", "the record built through the SVCB helper API is not the RFC 9460 encoding of the parameters that were set".into()); }
+            let out = parse_out(&reference);
+            if out != format!("ok {}", packet_text(&rr_text)) { c = c.fail("svcb-built-read", "the RFC 9460 encoding of the built parameters does not parse back to them".into()); }
+        }
+        for (k, b) in &expect { if s.get_param(*k) != Some(&b[..]) { c = c.fail("svcb-get-param", format!("get_param({}) does not return the value last set", k)); } }
+        if s.iter_params().count() != expect.len() { c = c.fail("svcb-param-count", "iter_params yields a different number of parameters than distinct keys set".into()); }
+        v.push(c);
+    }
 }
 
 pub fn c09(tier: &str, seed: u64) -> Vec<Case> {
